@@ -262,7 +262,8 @@ func (p ParsedScript) IsPushOnly() bool {
 func (p ParsedScript) removeOpcodeByData(data []byte) ParsedScript {
 	retScript := make(ParsedScript, 0, len(p))
 	for _, pop := range p {
-		if !pop.canonicalPush() || !bytes.Contains(pop.Data, data) {
+		// only data pushes can be pushes of the signature (an empty signature is OP_0)
+		if pop.op.val > bscript.OpPUSHDATA4 || !pop.canonicalPush() || !bytes.Equal(pop.Data, data) {
 			retScript = append(retScript, pop)
 		}
 	}
